@@ -6,6 +6,7 @@ CONSTANTS
   SaltIds = {}
   SaltWith = {}
   KShifts <- KS_Wide
+  SaltKShifts = {0}
   InitSeq <- I_Pos
   InitPatterns <- IP_Many
   SolidInits <- SI_None
